@@ -11,7 +11,7 @@
     `Gen/Huge.lean`) and proved equal to the model's transitions (`Proofs/GenTree.lean`).
 -/
 import LLFreeV.Proofs.LowerGet
-import LLFreeV.Proofs.GenTree
+import LLFreeV.Proofs.GenHuge
 namespace LLFree.C12
 open LLFree
 
